@@ -16,7 +16,7 @@ CHAIN_NOTE = ('Modelled not verified: signature extraction by boltons FunctionBu
 
 DISPATCH_NOTE = ('Modelled not verified: werkzeug Request/Response/redirect, ExceptionInfo.from_current, the '
                  'Accept negotiation inside render_error; whether a pattern matches is an input of the dispatch model '
-                 '(C05 decides it); what executing a route yields is abstracted to an outcome (Model/Exec supplies it). ')
+                 '(C05 decides it; every table is additionally routed by the composed pattern+match+dispatch model, tag dispatchfull, and both must agree); what executing a route yields is abstracted to an outcome (Model/Exec supplies it). ')
 
 WORLD_NOTE = ('Modelled not verified: the dependency check inside BoundRoute.__init__ is reduced in the World model to '
               '"every needed name has a source" (C01 decides it in full on Model/Chain.v); render functions, factories, '
@@ -46,11 +46,12 @@ CLAIMED = {
          'type contributes its WSGI wrapper at most once, and the application-level middlewares come first in list order (first '
          'outermost) with route-/embedded-level ones after them; a protocol monitor for one request (start_response exactly once, '
          'well-formed status and headers, before any non-empty chunk, only bytes, nothing but empty chunks for HEAD, closed last) '
-         'is proved SOUND w.r.t. the declarative reading. That every trace the implementation can produce is accepted is NOT a '
+         'is proved SOUND AND COMPLETE w.r.t. the declarative reading (C13_monitor_exact: it accepts exactly the conforming traces). That every trace the implementation can produce is accepted is NOT a '
          'theorem (werkzeug produces the events): every observed trace of 18 response kinds x 4 methods x header sets is decided by '
          'the extracted proved monitor (run-time verification), files opened under clastic.static must be closed after close(), '
          'wsgiref.validate runs on every kind, wrapper orders of random application trees are compared with the model, and '
-         'RerouteWSGI targets check environ identity, intact entries and verbatim relay.'),
+         'RerouteWSGI (as endpoint and raised) to five target answers that a re-serialising relay would rewrite: environ identity, intact '
+         'entries and exact relay of status, header list and body.'),
    note=COMMON_NOTE + 'Modelled not verified: werkzeug BaseResponse.__call__ / FileWrapper / get_app_iter; the bound routes\' middleware '
         'lists are inputs of the stack model (C03/C10 decide them); wsgiref.validate\'s objection to a Content-Type header on 304/204 is '
         'recorded in the evidence, not counted (neither PEP 3333 nor the property demands it).',
@@ -94,6 +95,7 @@ CLAIMED = {
          'skeleton of a page; for to_html (TRANSLATED from errors.py into a Gallina function) and the XML template the '
          'sequence of markup-significant characters depends only on which optional lines are present, never on field contents; '
          'body builder and Content-Type are selected by the same key of the regenerated MIME_SUPPORT_MAP, plain text otherwise; '
+         'escaping loses nothing: decoding the five character references returns exactly the original text (unescape_escape); '
          'no variable reference of the debug templates (inventory regenerated from _contextual_errors.py) disables escaping; the '
          'escaping calls of to_escaped_dict are pinned. Tie: translator + every HTTPException subclass x overrides x nasty '
          'strings x 16 Accept headers x default/debug handlers; HTML/XML bodies compared byte-for-byte with the translated '
@@ -108,7 +110,9 @@ CLAIMED = {
          'under the ashes discipline incl. its else-less-section rule): for every error text and every monitored-file list the '
          'page contains the HTML-escaped text and the HTML-escaped name of every file (visible and hidden lists); if the last '
          'line is "Type: message" the page contains the escaped type and the escaped message; inserted values contain no '
-         'markup-significant character; the bare excepts around traceback parsing and last-line extraction, the catch-all '
+         'markup-significant character; SKELETON INDEPENDENCE: the markup skeleton of the whole page is a function of the shape of the '
+         'failure alone (parsed or not, lengths of the file lists) for ANY texts and any template (induction over template nodes); '
+         'the bare excepts around traceback parsing and last-line extraction, the catch-all '
          'route and the absence of unescaped references are pinned from the source. Tie: translator + real tracebacks (15 '
          'failing statements x depths 1-5, truncated, concatenated), SyntaxError reports, None, bytes, hostile and random '
          'texts x file lists (incl. files under the stdlib/werkzeug/clastic directories) x paths x methods; the page is compared '
@@ -126,10 +130,14 @@ CLAIMED = {
          'unexpired, empty after expiry; a non-empty cookie implies a well-formed string whose tag is the MAC under the server key '
          'of exactly the received items; a tag made with another key or over other items, a missing separator, an undecodable tag, '
          'a non-ASCII key, an item without "=" all yield the empty cookie; with numeric expiry the next request is presented '
-         'exactly what the application stored, nothing once the stamp has passed. Totality rests on the catch-all handlers '
+         'exactly what the application stored, nothing once the stamp has passed; HISTORIES: by induction over whole client '
+         'histories (requests with any operations sparing the reserved key, clocks in any order, any tampering steps with anything '
+         'the server did not sign, all three expiry settings) the contents given to the endpoint at every request equal those of a '
+         'plain dictionary with a forget-after time (history_refines_dict; run_history is extracted and compared too). Totality rests on the catch-all handlers '
          'REGENERATED from cookie.py and pinned by a reflexivity obligation. Tie: request histories with patched clocks and 20 '
          'tampering kinds against the real middleware; contents, status and Set-Cookie compared with the extracted model and with '
-         'an independent re-statement that recomputes HMAC-SHA1.'),
+         'an independent re-statement that recomputes HMAC-SHA1 and, for honest clients, tracks what the application stored (history oracle); '
+         'operations include JSONCookie.set_expires.'),
    note=COMMON_NOTE + 'Modelled not verified: secure_cookie (its unserialize is transcribed; the lexical splitting of the cookie string '
         'is re-stated in the harness), HMAC-SHA1 (computational unforgeability is a premise, symbolic in the theorems), constant-time '
         'comparison, base64 leniency (a string that still verifies presents the genuinely signed contents), werkzeug cookie parsing.',
@@ -265,18 +273,27 @@ CLAIMED = {
    text=('Theorems (Props/C02.v): in every accepted plan the keyword list of every generated call is exactly the declared '
          'parameters that a source offers at that position (URL/built-ins/resources, request provides for later phases, '
          'context only in render, provides of earlier middlewares of the same chain), sources of an accepted route are '
-         'pairwise distinct (no shadowing). Values: the interpreter threads sentinels; the implementation is observed with '
+         'pairwise distinct (no shadowing). VALUES (C02_value_is_source): for every accepted route, every script assignment and every '
+         'function entered during a request, each keyword it is passed carries exactly the value of that name\'s one source - next, '
+         'the context the endpoint returned, URL value, built-in, resource, or what the providing middleware function handed to next() '
+         '(proved from the NoDup of sources by a counting argument; C02_sources characterises the source table). The implementation is observed with '
          'distinct sentinel objects checked by identity, positional and keyword next() calls, list-valued URL bindings '
-         'mutated between requests, two requests per route.'),
+         'mutated between requests, two requests per route; applications embedded under a prefix with URL bindings in an outer '
+         'application (Chain.build_nested), a POST-only decoy route in front binding a resource name from the URL, wrappers '
+         'around already bound functions.'),
    note=COMMON_NOTE + CHAIN_NOTE, technique='Coq proof (exact keyword sets of the call plan, NoDup of sources) + extracted-model differential check on sentinel values',
    design='6/C02'),
  'C03': dict(
    text=('Theorems (Props/C03.v): every trace of every plan under every script assignment is well bracketed; functions are '
          'entered in list order and a layer that does not call next cuts off everything inside; merge_middlewares puts the '
          'outer list first, keeps the inner order, keeps a unique type once at its outermost position and fails (ValueError) '
-         'only for a unique non-reorderable duplicate. Tie: exact equality of enter/leave traces between the extracted '
+         'only for a unique non-reorderable duplicate; THE ONION (C03_trace_is_onion): for every accepted route (no positional-only '
+         'parameters) the trace of a request IS the inductively defined onion over the request functions around process_request, '
+         'whose own trace is the endpoint onion followed - iff the endpoint side produced a non-Response value '
+         '(C03_render_skipped_iff) - by the render onion; each Leave carries the layer\'s script applied to exactly what its next() '
+         'produced (C03_transparent_next), a layer that does not call next cuts off a suffix (C03_short_circuit). Tie: exact equality of enter/leave traces between the extracted '
          'interpreter and real applications with scripted middlewares (raise before/after, early Response, swallow, replace) '
-         'at application and route level.'),
+         'at application, embedded-application (three-level merge) and route level.'),
    note=COMMON_NOTE + CHAIN_NOTE, technique='Coq proof (trace invariants by induction over the chain; list lemmas on merge) + extracted-model differential check on traces',
    design='6/C03'),
  'C04': dict(
@@ -284,7 +301,8 @@ CLAIMED = {
          'twice (URL, reserved built-ins, resources, any provides tuple, counted as a multiset) => construction fails '
          '(NameError once the middleware shapes are fine); Ok => sources NoDup; reserved application resource => NameError; '
          'middleware function without next first => rejected; next in endpoint/render => NameError; no accepted route has a '
-         'request/endpoint-phase function requiring context. Tie: one generated stream per defect kind (21 kinds incl. '
+         'request/endpoint-phase function requiring context. Tie: one generated stream per defect kind (27 kinds incl. conflicts '
+         'between the URL bindings of an embedding prefix and inner resources / provides / built-ins, '
          'instance-level functions and one middleware offering a name in two phases) mixed into valid configurations.'),
    note=COMMON_NOTE + CHAIN_NOTE, technique='Coq proof (has_dup/NoDup characterisation of check_middlewares, case analysis of make_middleware_chain) + translator-generated tables + extracted-model differential check',
    design='6/C04'),
